@@ -16,7 +16,14 @@ Proof. now destruct a, b. Qed.
 Lemma tv_not_bool a : tv_not (tv_of_bool a) = tv_of_bool (negb a).
 Proof. now destruct a. Qed.
 
+Lemma tv_true_and a b : tv_true (tv_and a b) = tv_true a && tv_true b.
+Proof. now destruct a, b. Qed.
+Lemma tv_true_or a b : tv_true (tv_or a b) = tv_true a || tv_true b.
+Proof. now destruct a, b. Qed.
+
 Lemma enc_scalar v : scalar_val v = true -> enc_val v = v.
+Proof. now destruct v. Qed.
+Lemma enc_nscalar v : nscalar v = true -> enc_val v = v.
 Proof. now destruct v. Qed.
 
 Lemma assoc_map_enc a (l : list (Z * val)) :
@@ -51,6 +58,70 @@ Lemma in_agree w v cs : forallb (same_kind v) cs = true ->
 Proof.
   induction cs as [|c cs IH]; simpl; auto. rewrite andb_true_iff. intros [H1 H2].
   rewrite IH by auto. rewrite (val_eq_scalar eq_fuel w) by auto. apply tv_or_bool.
+Qed.
+
+(* None included: Python's == on column values is SQL's IS; = agrees with it whenever the right side is not None *)
+Lemma nullsafe_val_eq f w a b : nscalar a = true -> nscalar b = true -> compat a b = true ->
+  nullsafe_eq a b = val_eq f w a b.
+Proof. destruct a, b; simpl; try discriminate; intros; destruct f; auto; now rewrite tv_true_of_bool. Qed.
+Lemma sql_eq_true f w a b : nscalar a = true -> scalar_val b = true -> compat a b = true ->
+  tv_true (sql_eq a b) = val_eq f w a b.
+Proof. destruct a, b; simpl; try discriminate; intros; destruct f; auto; now rewrite tv_true_of_bool. Qed.
+Lemma in_sound w a cs : nscalar a = true -> forallb scalar_val cs = true -> forallb (compat a) cs = true ->
+  tv_true (sql_in a cs) = existsb (fun c => val_eq eq_fuel w a c) cs.
+Proof.
+  intros Ha. induction cs as [|c cs IH]; simpl; auto. rewrite !andb_true_iff. intros [S1 S2] [C1 C2].
+  rewrite tv_true_or, IH by auto. now rewrite (sql_eq_true eq_fuel w).
+Qed.
+Lemma truth_sound a : nscalar a = true ->
+  tv_true (match a with
+           | VInt z => tv_of_bool (negb (z =? 0))
+           | VStr s => tv_of_bool (negb (zlist_eqb s []))
+           | VNull => TU
+           | _ => TF
+           end) = truthy a.
+Proof. destruct a; simpl; try discriminate; intros; now rewrite ?tv_true_of_bool. Qed.
+
+(* OperatorMapper.map_comparison_operator on a column and (a column or a literal): the emitted predicate holds exactly
+   when Python's comparison holds *)
+Lemma mk_cmp_sound w op ea eb a b :
+  is_col ea = true -> (is_col eb = true \/ eb = SConst b) ->
+  nscalar a = true -> nscalar b = true -> cmp_data (eqne op) a b = true -> sx_bad eb = false ->
+  exists p, mk_cmp op ea eb = Some p /\ pred_bad p = false /\
+            forall env, eval_sx env ea = a -> eval_sx env eb = b -> py_cmp w op a b = Ok (tv_true (eval_pred env p)).
+Proof.
+  intros Hca Hcb Ha Hb Hd Hbad. destruct ea as [ia aa|]; try discriminate.
+  assert (ORD : forall op', eqne op' = false -> same_kind a b = true ->
+            forall env eb', eval_sx env (SCol ia aa) = a -> eval_sx env eb' = b ->
+            py_cmp w op' a b = Ok (tv_true (eval_pred env (SCmp op' (SCol ia aa) eb')))).
+  { intros op' _ Hk env eb' E1 E2. cbn [eval_pred]. rewrite E1, E2. apply (proj1 (cmp_agree w op' a b Hk)). }
+  destruct Hcb as [Hcb | ->].
+  - destruct eb as [ib ab|]; try discriminate.
+    destruct op; simpl in Hd; cbn [mk_cmp is_col andb]; eexists; (split; [reflexivity|]); (split; [reflexivity|]);
+      intros env E1 E2; try (now apply ORD).
+    + cbn [eval_pred]. rewrite E1, E2, xorb_false_l, tv_true_of_bool. simpl py_cmp.
+      now rewrite (nullsafe_val_eq eq_fuel w a b).
+    + cbn [eval_pred]. rewrite E1, E2, xorb_true_l, tv_true_of_bool. simpl py_cmp.
+      now rewrite (nullsafe_val_eq eq_fuel w a b).
+  - destruct op; simpl in Hd.
+    + (* == literal *)
+      destruct b; try discriminate; cbn [mk_cmp is_col andb]; eexists; (split; [reflexivity|]); (split; [reflexivity|]);
+        intros env E1 E2; cbn [eval_pred]; rewrite E1; cbn [eval_sx]; simpl py_cmp.
+      * destruct a; try discriminate; reflexivity.
+      * now rewrite (sql_eq_true eq_fuel w).
+      * now rewrite (sql_eq_true eq_fuel w).
+    + (* != literal *)
+      cbn [mk_cmp]; eexists; (split; [reflexivity|]); (split; [simpl; exact Hbad|]).
+      intros env E1 E2. cbn [eval_pred]. rewrite E1, E2, xorb_true_l, tv_true_of_bool. simpl py_cmp.
+      now rewrite (nullsafe_val_eq eq_fuel w a b).
+    + destruct b; try (destruct a; discriminate); cbn [mk_cmp]; eexists; (split; [reflexivity|]); (split; [reflexivity|]);
+        intros env E1 E2; now apply ORD.
+    + destruct b; try (destruct a; discriminate); cbn [mk_cmp]; eexists; (split; [reflexivity|]); (split; [reflexivity|]);
+        intros env E1 E2; now apply ORD.
+    + destruct b; try (destruct a; discriminate); cbn [mk_cmp]; eexists; (split; [reflexivity|]); (split; [reflexivity|]);
+        intros env E1 E2; now apply ORD.
+    + destruct b; try (destruct a; discriminate); cbn [mk_cmp]; eexists; (split; [reflexivity|]); (split; [reflexivity|]);
+        intros env E1 E2; now apply ORD.
 Qed.
 
 (* ---------- unique keys ---------- *)
